@@ -31,8 +31,13 @@ _ALIASES = [
 ]
 
 
+_INNER = re.compile(r"\b(?:std|alloc|core)::(?:vec|string|option|result|boxed|collections(?:::btree_map|::btree_set)?|cmp|ops)::(?=[A-Z])")
+
+
 def spellings(n):
     out = [n]
+    short = _INNER.sub("", n)             # std paths nested in `<..>` (`<std::vec::Vec<T> as Extend<T>>::extend`)
+    if short != n: out.append(short)
     for group in _ALIASES:
         for g in group:
             if n.startswith(g):
